@@ -1664,7 +1664,7 @@ func ruleClientLoopShape(p *Prog, r *Out) {
 	var endIf *ast.IfStmt
 	ast.Inspect(dp.Body, func(n ast.Node) bool {
 		ifs, ok := n.(*ast.IfStmt)
-		if !ok || squash(p.text(ifs.Cond)) != "err==nil" || ifs.Else == nil {
+		if !ok || squash(p.text(ifs.Cond)) != "err==nil" {
 			return true
 		}
 		for _, s := range ifs.Body.List {
@@ -1676,11 +1676,29 @@ func ruleClientLoopShape(p *Prog, r *Out) {
 				})
 			}
 		}
-		inspectCalls(ifs.Else, func(cl *ast.CallExpr) {
-			if p.calleeOf(cl) == "(*Conn).finish" && len(cl.Args) == 3 && p.text(cl.Args[2]) == "err" {
-				okErr = true
+		// the other side: the else branch, or, when the success branch returns, what follows it
+		var other ast.Node = ifs.Else
+		if ifs.Else == nil && len(ifs.Body.List) > 0 {
+			if _, isRet := ifs.Body.List[len(ifs.Body.List)-1].(*ast.ReturnStmt); isRet {
+				pm := p.pmFor(ifs)
+				if blk, isBlk := pm[ifs].(*ast.BlockStmt); isBlk {
+					rest := &ast.BlockStmt{}
+					for _, s := range blk.List {
+						if s.Pos() > ifs.End() {
+							rest.List = append(rest.List, s)
+						}
+					}
+					other = rest
+				}
 			}
-		})
+		}
+		if other != nil {
+			inspectCalls(other, func(cl *ast.CallExpr) {
+				if p.calleeOf(cl) == "(*Conn).finish" && len(cl.Args) == 3 && p.text(cl.Args[2]) == "err" {
+					okErr = true
+				}
+			})
+		}
 		return true
 	})
 	r.check(okNil && okErr, "dispatch resolves the request", p.pos(dp.Pos()), "err == nil: END_STREAM -> finish(r, id, nil); else finish(r, id, err)", "dispatch no longer resolves the waiting request with nil when its response ended and with the error when reading the frame failed: the caller waits until its timeout, or is told of success for a failed response")
